@@ -239,3 +239,63 @@ func init() {
 	addMutant(Mutant{Prop: "C15", Name: "field-inherits-embed-ro", File: "runtime/internal/lib/reflect/value.go",
 		Old: "\tfl := v.flag&(flagStickyRO|flagIndir|flagAddr) | flag(kind)", New: "\tfl := v.flag&(flagIndir|flagAddr) | v.flag.ro() | flag(kind)", Expect: "R15.8"})
 }
+
+// checkMakeIntNarrows (R15.9): reflect keeps small integers in the value's pointer word and Int/Uint read the
+// whole word back; a conversion to a narrower kind must therefore reduce the bits to the destination width
+// (sign-extended for signed kinds) before they are stored.
+func checkMakeIntNarrows(c *Ctx, rfl *packages.Package) {
+	c.Rule("R15.9", "reflect.makeInt reduces the value to the width (and signedness) of the destination kind before storing it inline, so that Convert to a narrower integer kind wraps as in Go", 1)
+	fd := findFunc(rfl, "makeInt")
+	if fd == nil {
+		c.Undecided("R15.9", "reflect.makeInt", 0, "function not found")
+		return
+	}
+	c.nfuncs++
+	info := rfl.TypesInfo
+	n := 0
+	ast.Inspect(fd.Body, func(x ast.Node) bool {
+		cc, ok := x.(*ast.CaseClause)
+		if !ok || len(cc.List) == 0 {
+			return true
+		}
+		narrow := false
+		for _, e := range cc.List {
+			if v, isC := constInt(info, e); isC && v < 8 {
+				narrow = true
+			}
+		}
+		if !narrow {
+			return true
+		}
+		n++
+		reduced := false
+		for _, st := range cc.Body {
+			ast.Inspect(st, func(y ast.Node) bool {
+				if as, ok := y.(*ast.AssignStmt); ok {
+					for _, l := range as.Lhs {
+						if exprStr(l) == "bits" {
+							reduced = true
+						}
+					}
+				}
+				return true
+			})
+		}
+		// or: the stored expression goes through a narrowing conversion
+		src := strings.ReplaceAll(srcOf(cc), " ", "")
+		if strings.Contains(src, "uintptr(uint8(") || strings.Contains(src, "uintptr(int8(") || strings.Contains(src, "uintptr(uint16(") || strings.Contains(src, "uintptr(uint32(") {
+			reduced = true
+		}
+		c.Check(reduced, "R15.9", "reflect.makeInt narrows values stored inline", cc.Pos(), "bits reduced to the destination width before unsafe.Pointer(uintptr(bits))",
+			"the 64-bit value is stored in the pointer word unchanged and Int/Uint read the whole word: reflect.ValueOf(int64(300)).Convert(int8).Int() is 300 instead of 44")
+		return true
+	})
+	if n == 0 {
+		c.Undecided("R15.9", "reflect.makeInt inline arm", fd.Pos(), "no case for sizes below 8")
+	}
+}
+
+func init() {
+	addMutant(Mutant{Prop: "C15", Name: "makeint-stores-unreduced-bits", File: "runtime/internal/lib/reflect/value.go",
+		Old: "\t\tshift := 64 - 8*uint(typ.Size())\n\t\tif k := Kind(typ.Kind()); k >= Int && k <= Int64 {\n\t\t\tbits = uint64(int64(bits<<shift) >> shift)\n\t\t} else {\n\t\t\tbits = bits << shift >> shift\n\t\t}\n", New: "", Expect: "R15.9"})
+}
